@@ -276,8 +276,8 @@ func (e *c23Env) verify(rt *c23Retained, when string) {
 			continue
 		}
 		how := map[byte]string{'h': "slot-served-from-cache", 'j': "slot-joined-running-load", 'f': "slot-loaded-by-this-get", '-': "empty-slot"}[was.served]
-		e.bad("C23/result/mutated-after-return/"+how, "a result that Get had already returned changed later (the rows are shared with the cache or with another request)", rt.g,
-			map[string]any{"when": when, "slot_index": i, "slot": rt.g.win.slots[rt.g.fromIdx+i], "rows_then": was.n, "version_then": was.ver, "load_then": was.load,
+		e.bad("C23/result/mutated-after-return", "a result that Get had already returned changed later (the rows are shared with the cache or with another request)", rt.g,
+			map[string]any{"when": when, "slot_was": how, "slot_index": i, "slot": rt.g.win.slots[rt.g.fromIdx+i], "rows_then": was.n, "version_then": was.ver, "load_then": was.load,
 				"rows_now": now.n, "version_now": now.ver, "load_now": now.load, "get_called_clk": rt.g.called, "clk_now": e.clk.Load()})
 		return
 	}
@@ -730,6 +730,7 @@ func (e *c23Env) progressMonitor(stop *atomic.Bool, wg *sync.WaitGroup) {
 // ---- judging one Get
 
 type c23Verdict struct {
+	bad         bool // some slot failed the placement oracle
 	slots       int
 	constrained int
 	hits        int
@@ -789,6 +790,7 @@ func (e *c23Env) judge(g *c23Get, res cache2Data, returned int64) (v c23Verdict)
 			}
 		}
 		if !okRows {
+			v.bad = true
 			continue
 		}
 		switch {
@@ -1081,7 +1083,7 @@ func (e *c23Env) worker(widx int, rnd *rand.Rand) {
 		}
 		e.st.Count("gets.success", 1)
 		v := e.judge(g, o.res, o.ret)
-		if v.hits > 0 || rnd.IntN(3) == 0 {
+		if !v.bad && (v.hits > 0 || rnd.IntN(3) == 0) {
 			ring = append(ring, e.retain(g, o.res))
 		}
 		e.st.Count("slots.checked", int64(v.slots))
